@@ -750,6 +750,16 @@ func c17History(seed uint64, idx int, big bool) (res c17Hist, err error) {
 	var colp *models.Collection
 	defer func() { cl.stop(colp) }()
 	plan := models.UserPlan{Name: "VERIF", MaxCollections: 5, MaxCollectionPointCount: 100000, MaxPointSize: 1 << 20}
+	first := 1 + r.IntN(capacity)
+	if !big && nservers >= 2 && idx%4 != 0 {
+		// an earlier life of the same collection name on the same cluster: created, filled with as many points as the
+		// first batch below (so it has as many shards), searched through every node, deleted. Nothing of it may
+		// show in the history that follows (whatever a node remembers per collection name must not outlive it)
+		if err := c17PreviousLife(cl, h, plan, first); err != nil {
+			return res, err
+		}
+		h.note("collection name had an earlier life")
+	}
 	if err := cl.nodes[entryA].CreateCollection(models.Collection{UserId: h.user, Id: h.colId, Replicas: 1, Timestamp: 1, CreatedAt: 1, UserPlan: plan, IndexSchema: g.schema.model()}); err != nil {
 		return res, fmt.Errorf("CreateCollection: %w", err)
 	}
@@ -808,7 +818,6 @@ func c17History(seed uint64, idx int, big bool) (res c17Hist, err error) {
 		}
 	} else {
 		// phase 1, through node A
-		first := 1 + r.IntN(capacity)
 		if err := h.insert(take(first)); err != nil {
 			return res, err
 		}
@@ -895,6 +904,43 @@ func c17History(seed uint64, idx int, big bool) (res c17Hist, err error) {
 	res.kinds = h.kinds
 	res.samples = h.samples
 	return res, nil
+}
+
+// c17PreviousLife: create / fill / search through every node / delete, under the name the history is about to use
+func c17PreviousLife(cl *c17Cluster, h *c17Run, plan models.UserPlan, npoints int) error {
+	g := h.g
+	entry := cl.nodes[h.entry]
+	if err := entry.CreateCollection(models.Collection{UserId: h.user, Id: h.colId, Replicas: 1, Timestamp: 0, CreatedAt: 0, UserPlan: plan, IndexSchema: g.schema.model()}); err != nil {
+		return fmt.Errorf("previous life: CreateCollection: %w", err)
+	}
+	mp := make([]models.Point, npoints)
+	for i := range mp {
+		m, err := pointSpec{id: c17Uuid(g.r), doc: g.genDoc(false, false)}.model()
+		if err != nil {
+			return err
+		}
+		mp[i] = m
+	}
+	col, err := entry.GetCollection(h.user, h.colId)
+	if err != nil {
+		return fmt.Errorf("previous life: GetCollection: %w", err)
+	}
+	if failed, err := entry.InsertPoints(col, mp); err != nil || len(failed) > 0 {
+		return fmt.Errorf("previous life: InsertPoints: %v %v", err, failed)
+	}
+	for _, nd := range cl.nodes {
+		col, err = nd.GetCollection(h.user, h.colId)
+		if err != nil {
+			return fmt.Errorf("previous life: GetCollection: %w", err)
+		}
+		if _, err := nd.SearchPoints(col, requestSpec{q: h.allQuery(), limit: 10}.model()); err != nil {
+			return fmt.Errorf("previous life: SearchPoints: %w", err)
+		}
+	}
+	if _, err := entry.DeleteCollection(col); err != nil {
+		return fmt.Errorf("previous life: DeleteCollection: %w", err)
+	}
+	return nil
 }
 
 // ---------------------------------------------------------------- limit expression, curateFailedPoints
